@@ -9,6 +9,7 @@ E3  build units (a unit = harness/c17.cpp + a subset of the batches):
                                 packed and aligned types (the _mm_shuffle specialisations, the SIMD constructors)
       op_av2           g++ -O0  4-letter operator accessors of aligned vec2 sources under a fault guard
       xyzw             GLM_FORCE_XYZW_ONLY;   qwxyz / qxyzw   the quaternion storage / argument-order configurations
+      cxx03            GLM_FORCE_CXX03: the constructors and the 81 shape conversions with their pre-C++11 bodies
     thorough: avx2_* (clang++ -mavx2 -mfma), fnclang_*, opg_* (the operator form with g++, split in 7 units because g++ needs
     ~0.15 s per accessor in that mode), more element types / qualifiers / cross-type pairs.
 E4  Trace_C17 judges every event of the concatenated trace.
@@ -162,11 +163,12 @@ def run(ctx):
     th = not ctx.quick
     fams = {"fn": Family(ctx, "fn", "fn", th, "g++", gdir), "op": Family(ctx, "op", "op", th, "clang++", gdir),
             "xyzw": Family(ctx, "xyzw", "xyzw", th, "g++", gdir), "qwxyz": Family(ctx, "qwxyz", "qwxyz", th, "g++", gdir),
-            "qxyzw": Family(ctx, "qxyzw", "qxyzw", th, "g++", gdir)}
+            "qxyzw": Family(ctx, "qxyzw", "qxyzw", th, "g++", gdir), "cxx03": Family(ctx, "cxx03", "cxx03", th, "g++", gdir)}
     units = [Unit("fn_swz", fams["fn"], "g++", "-O1", IS_SWZ), Unit("fn_ctor", fams["fn"], "g++", "-O1", IS_CTOR),
              Unit("op_swz", fams["op"], "clang++", "-O0", IS_SWZ), Unit("op_ctor", fams["op"], "clang++", "-O0", IS_CTOR),
              Unit("op_av2", fams["op"], "g++", "-O0", IS_AV2),
-             Unit("xyzw", fams["xyzw"], "g++", "-O1", ALL), Unit("qwxyz", fams["qwxyz"], "g++", "-O1", ALL), Unit("qxyzw", fams["qxyzw"], "g++", "-O1", ALL)]
+             Unit("xyzw", fams["xyzw"], "g++", "-O1", ALL), Unit("qwxyz", fams["qwxyz"], "g++", "-O1", ALL), Unit("qxyzw", fams["qxyzw"], "g++", "-O1", ALL),
+             Unit("cxx03", fams["cxx03"], "g++", "-O1", ALL)]
     if th:
         fams["avx2"] = Family(ctx, "avx2", "avx2", True, "clang++", gdir)
         fams["opg"] = Family(ctx, "opg", "op", False, "g++", gdir)         # g++ is very slow on the operator form: the quick-size lists
